@@ -322,6 +322,14 @@ def load(ctx, spec, files):
     fgro, fitp = G.write_molecule(ctx.scratch, tag, spec)
     files += [fgro, fitp]
     from gaddlemaps.components import Molecule
+    if spec.get("top_resnr"):
+        # a molecule whose residues (the .gro numbering) are partitioned otherwise than the resnr column of its topology
+        # (a polymer whose generated .itp numbers the monomers differently): built as Molecule(MoleculeTop, residues),
+        # the way a program assembles one.  Its residues are what `mol.residues` says (seed C10-11: residues COUNTED
+        # through the topology, PAIRED through mol.residues)
+        from gaddlemaps.components import MoleculeTop, SystemGro
+        G.write_itp(fitp, dict(spec, atoms=[(tr, rn, an) for (r, rn, an), tr in zip(spec["atoms"], spec["top_resnr"])]))
+        return Molecule(MoleculeTop(fitp), list(SystemGro(fgro)))
     return Molecule.from_files(fgro, fitp)
 
 
@@ -871,7 +879,8 @@ def eval_gparse(ctx, case):
             opts[key] = None if case[key] is None else {name: pyval(v) for name, v in case[key]}
         sp_toks = species_tokens(man)
         complete = {n: a for n, a in man.molecule_correspondence.items() if a.end is not None}
-        nres = {n: (len(a.start.resnames), len(a.end.resnames)) for n, a in complete.items()}
+        # (residues counted on the objects' residue lists, not through a property of the library under test)
+        nres = {n: (len(a.start.residues), len(a.end.residues)) for n, a in complete.items()}
         big = {n: guess and nres[n][0] > 3 for n in complete}
 
         # ---- the call under test
@@ -1673,6 +1682,18 @@ def gen_gparse(ctx):
         nres = {s["start"]["name"]: len(G.residues_of(s["start"])) for s in complete}
         guess = rng.random() < 0.8
         labels = []
+        for sp in complete:
+            ea = sp["end"]["atoms"]
+            last = [k for k, a in enumerate(ea) if a[0] == ea[-1][0]]
+            if nres[sp["start"]["name"]] > 3 and len(last) >= 2 and it % 6 == 0 and \
+                    len(G.residues_of(sp["end"])) == nres[sp["start"]["name"]]:
+                # the end molecule's LAST residue is two residues in its coordinates (numbers r, r+1, same name) and one
+                # in its topology: one residue more than the start molecule
+                sp["end"]["top_resnr"] = [a[0] for a in ea]
+                half = last[len(last) // 2:]
+                sp["end"]["atoms"] = [((a[0] + 1, a[1], a[2]) if k in half else a) for k, a in enumerate(ea)]
+                labels.append("end-residues-partitioned-otherwise-than-its-topology")
+                break
         restr = None
         if rng.random() < 0.7:
             names = [n for n in cnames if rng.random() < 0.75]
